@@ -122,13 +122,15 @@ structure PackOK {P : Type} (max : Nat) (pack : P → List Raw) (unpack : List R
 
 /-! ### (b1) the generic fragmenter (`rtpfragmented`) -/
 
-/-- pieces of `k` bytes, the last one shorter (never empty); `k = 0` is a division by zero in Go -/
-def chunks (k : Nat) (b : Bytes) : List Bytes :=
-  if _hk : k = 0 then [] else
-  if _hb : b.length ≤ k then (if b.isEmpty then [] else [b])
-  else b.take k :: chunks k (b.drop k)
-termination_by b.length
-decreasing_by simp only [List.length_drop]; omega
+/-- pieces of `k` bytes, the last one shorter (never empty); structural recursion on a fuel ≥ length -/
+def chunksAux (k : Nat) : Nat → Bytes → List Bytes
+  | 0, _ => []
+  | fuel + 1, b =>
+    if b.length ≤ k then (if b.isEmpty then [] else [b])
+    else b.take k :: chunksAux k fuel (b.drop k)
+
+/-- `k = 0` is an integer division by zero in Go (callers guard it) -/
+def chunks (k : Nat) (b : Bytes) : List Bytes := if k = 0 then [] else chunksAux k b.length b
 
 /-- marker on the last packet only -/
 def markLast : List Bytes → List Raw
